@@ -2,7 +2,7 @@
 //! shared SEQ alphabet used by C05 (and the Miri/ASan shards).
 //!
 //! Exhaustive enumeration of all operation sequences up to a length bound over
-//! a 14-letter alphabet on a topic with two subscriptions, plus random longer
+//! a 16-letter alphabet on a topic with two subscriptions, plus random longer
 //! SEQ histories; every step is checked against the exact reference model,
 //! including the stats of *every* subscription ("touches nothing else").
 
@@ -16,9 +16,9 @@ use crate::seq::Seq;
 use crate::world::*;
 use std::time::Duration;
 
-pub const LETTERS: [&str; 14] = [
+pub const LETTERS: [&str; 16] = [
     "publish", "pull1", "pullall", "ack_oldest", "ack_newest", "ack_stale", "ack_unknown", "ack_again", "nack_oldest", "modify_oldest_30", "adv_before", "adv_past", "ack_dead_then_live",
-    "ack_oldest_at_the_wire",
+    "ack_oldest_at_the_wire", "ack_dup_to_count", "ack_dead_to_count",
 ];
 
 fn enum_len(p: &EpParams) -> u32 {
@@ -163,6 +163,40 @@ pub async fn apply(seq: &mut Seq, c: &mut Ctx, letter: &str, sub: &str) {
                     c.odd_acks += 1;
                 }
             }
+        }
+        "ack_dup_to_count" => {
+            // one request that repeats the oldest live ID as many times as there are leases: it
+            // acknowledges that one delivery and nothing else
+            let ls = leases_sorted(seq, sub);
+            match ls.first() {
+                Some((id, l)) => {
+                    let certain = seq.now() < l.lo;
+                    let ids: Vec<String> = std::iter::repeat(id.clone()).take(ls.len().max(2)).collect();
+                    seq.ack(sub, &ids).await;
+                    c.last_acked = Some(id.clone());
+                    if certain {
+                        c.effective_acks += 1;
+                    }
+                    c.odd_acks += 1;
+                }
+                None => {
+                    seq.ack(sub, &["424248".to_string(), "424248".to_string()]).await;
+                    c.odd_acks += 1;
+                }
+            }
+        }
+        "ack_dead_to_count" => {
+            // one request with as many IDs as there are leases, none of which is a lease (stale
+            // IDs of this subscription first, unknown ones to fill up): it changes nothing
+            let live: Vec<String> = seq.m.subs.get(sub).map(|s| s.leases.keys().cloned().collect()).unwrap_or_default();
+            let mut ids: Vec<String> = c.past_ids.iter().rev().filter(|i| !live.contains(i)).take(live.len().max(1)).cloned().collect();
+            let mut filler = 424_300u32;
+            while ids.len() < live.len().max(1) {
+                ids.push(filler.to_string());
+                filler += 1;
+            }
+            seq.ack(sub, &ids).await;
+            c.odd_acks += 1;
         }
         "ack_dead_then_live" => {
             // one request: a dead ID (stale, or unknown when nothing is stale yet) followed by every live ID
@@ -312,7 +346,7 @@ async fn episode(p: &EpParams) -> EpReport {
     } else {
         let n = rng.range(40, 80);
         let ext = [
-            "ack_dead_then_live", "ack_oldest_at_the_wire", "publish", "publish3", "pull1", "pullall", "ack_oldest", "ack_newest", "ack_stale", "ack_unknown", "ack_again", "nack_oldest", "modify_oldest_30", "modify_newest_3", "modify_oldest_700",
+            "ack_dead_then_live", "ack_oldest_at_the_wire", "ack_dup_to_count", "ack_dead_to_count", "publish", "publish3", "pull1", "pullall", "ack_oldest", "ack_newest", "ack_stale", "ack_unknown", "ack_again", "nack_oldest", "modify_oldest_30", "modify_newest_3", "modify_oldest_700",
             "adv_before", "adv_past", "pull1", "ack_oldest", "publish",
         ];
         let mut ls = Vec::new();
